@@ -1,8 +1,14 @@
 package main
 
 import (
+	"fmt"
 	"go/ast"
+	"go/constant"
 	"go/token"
+	"go/types"
+	"strings"
+
+	"golang.org/x/tools/go/ssa"
 )
 
 // stmtLists visits every statement list (block bodies, case clauses) in n.
@@ -91,4 +97,220 @@ func ruleT1(c *Ctx) {
 
 func itoa(n int) string {
 	return string(rune('0'+n%10))
+}
+
+// T2: header-loop bookkeeping is unconditional on every completed header.
+func ruleT2(c *Ctx) {
+	fd := c.Decls["ParseHeaders"]
+	if fd == nil {
+		c.fail("T2", "ParseHeaders", token.NoPos, "not found")
+		return
+	}
+	hl := fd.Type.Params.List[2].Names[0].Name
+	found := false
+	ast.Inspect(fd.Body, func(n ast.Node) bool {
+		sw, ok := n.(*ast.SwitchStmt)
+		if !ok || sw.Tag == nil {
+			return true
+		}
+		// the switch on ParseHdrLine's verdict
+		tagObj := c.objOf(sw.Tag)
+		isVerdict := false
+		ast.Inspect(fd.Body, func(m ast.Node) bool {
+			if as, ok := m.(*ast.AssignStmt); ok && len(as.Lhs) == 2 && len(as.Rhs) == 1 {
+				if call, ok := as.Rhs[0].(*ast.CallExpr); ok && c.calleeName(call) == "ParseHdrLine" && c.objOf(as.Lhs[1]) == tagObj {
+					isVerdict = true
+				}
+			}
+			return true
+		})
+		if !isVerdict {
+			return true
+		}
+		for _, cc := range sw.Body.List {
+			cl := cc.(*ast.CaseClause)
+			ok0 := false
+			for _, e := range cl.List {
+				if v, isC := c.constInt(e); isC && v == 0 {
+					ok0 = true
+				}
+			}
+			if !ok0 {
+				continue
+			}
+			found = true
+			var hname string
+			have := map[string]bool{}
+			for _, s := range cl.Body {
+				switch st := s.(type) {
+				case *ast.ExprStmt:
+					if call, ok := st.X.(*ast.CallExpr); ok {
+						src := c.src(call)
+						switch c.calleeName(call) {
+						case "HdrFlags.Set":
+							if strings.HasPrefix(src, hl+".PFlags.Set(") && strings.HasSuffix(src, ".Type)") {
+								have["flags"] = true
+								hname = strings.TrimSuffix(strings.TrimPrefix(src, hl+".PFlags.Set("), ".Type)")
+							}
+						case "HdrLst.SetHdr":
+							if strings.HasPrefix(src, hl+".SetHdr(") {
+								have["first"] = true
+							}
+						}
+					}
+				case *ast.IncDecStmt:
+					if c.src(st.X) == hl+".N" && st.Tok == token.INC {
+						have["count"] = true
+					}
+				case *ast.IfStmt:
+					// only the scratch-slot reset may be conditional
+					cs := c.src(st.Cond)
+					c.check(strings.Contains(cs, "&"+hl+".hdr") && strings.Contains(c.src(st.Body), ".Reset()"), "T2", "conditional:"+cs, st.Pos(),
+						"the only conditional statement on the completion path is the scratch-slot reset")
+				}
+			}
+			c.check(have["flags"], "T2", "PFlags.Set", cl.Pos(), "every completed header sets its type flag unconditionally (PFlags.Set("+hname+".Type))")
+			c.check(have["first"], "T2", "SetHdr", cl.Pos(), "every completed header is offered to the first-of-type table unconditionally")
+			c.check(have["count"], "T2", "N++", cl.Pos(), "every completed header is counted unconditionally, whether or not it fitted the caller's array")
+		}
+		return true
+	})
+	c.check(found, "T2", "case-0", fd.Pos(), "completion clause (verdict 0 of ParseHdrLine) found")
+}
+
+// T3: the flag word is wide enough for every header type; first-of-type table sized for the known types.
+func ruleT3(c *Ctx) {
+	var max int64 = -1
+	n := 0
+	sc := c.Types.Scope()
+	var hdrT, flagsT types.Type
+	if o := sc.Lookup("HdrT"); o != nil {
+		hdrT = o.Type()
+	}
+	if o := sc.Lookup("HdrFlags"); o != nil {
+		flagsT = o.Type()
+	}
+	for _, name := range sc.Names() {
+		if k, ok := sc.Lookup(name).(*types.Const); ok && hdrT != nil && types.Identical(k.Type(), hdrT) {
+			v, _ := constant.Int64Val(constant.ToInt(k.Val()))
+			if v > max {
+				max = v
+			}
+			n++
+		}
+	}
+	bits, _ := intBits(flagsT)
+	c.check(n >= 15 && max >= 0 && int(max) < bits, "T3", "flag-width", token.NoPos, fmt.Sprintf("largest HdrT constant %d < %d bits of HdrFlags (1<<Type never drops a type)", max, bits))
+	other, _ := c.namedConstInt("HdrOther")
+	c.check(max == other, "T3", "other-last", token.NoPos, "HdrOther is the largest header type")
+	// len(HdrLst.h) == HdrOther-1
+	for _, f := range c.structFields("HdrLst") {
+		if f.Name() == "h" {
+			at, ok := f.Type().Underlying().(*types.Array)
+			c.check(ok && at.Len() == other-1, "T3", "first-table-len", token.NoPos, fmt.Sprintf("first-of-type table has HdrOther-1 = %d slots", other-1))
+		}
+	}
+	// GetHdr / SetHdr index with Type-1
+	for _, fn := range []string{"HdrLst.GetHdr", "HdrLst.SetHdr"} {
+		fd := c.Decls[fn]
+		okIdx := false
+		if fd != nil {
+			s := strings.ReplaceAll(c.src(fd.Body), " ", "")
+			okIdx = strings.Contains(s, "int(t)-1") || strings.Contains(s, "int(newhdr.Type)-1")
+		}
+		c.check(okIdx, "T3", fn+":index", token.NoPos, "slot index is Type-1 (no slot for HdrNone)")
+	}
+	// SetHdr keeps the first header of a type: stores only when the slot is Missing()
+	if fd := c.Decls["HdrLst.SetHdr"]; fd != nil {
+		c.check(strings.Contains(c.src(fd.Body), ".Missing()"), "T3", "SetHdr:first-only", fd.Pos(), "a slot is written only while it is still missing (first header of the type wins)")
+	}
+}
+
+// T4: decision table of skipCRLF (the three accepted line ends) by exact byte sets at each return.
+func ruleT4(c *Ctx) {
+	fn := c.SFuncs["skipCRLF"]
+	if fn == nil {
+		c.fail("T4", "skipCRLF", token.NoPos, "not found")
+		return
+	}
+	env := newRangeEnv(fn)
+	// loads of buf[offs] and buf[offs+1]
+	var ld0, ld1 ssa.Value
+	le := newLinEnv(linOpts{})
+	for _, b := range fn.Blocks {
+		for _, ins := range b.Instrs {
+			u, ok := ins.(*ssa.UnOp)
+			if !ok || u.Op != token.MUL {
+				continue
+			}
+			ia, ok := u.X.(*ssa.IndexAddr)
+			if !ok {
+				continue
+			}
+			l := le.norm(ia.Index)
+			if len(l.T) == 1 && l.T["param:"+fn.Params[1].Name()] == 1 {
+				if l.C == 0 && ld0 == nil {
+					ld0 = u
+				} else if l.C == 1 && ld1 == nil {
+					ld1 = u
+				}
+			}
+		}
+	}
+	if ld0 == nil || ld1 == nil {
+		c.fail("T4", "skipCRLF:loads", fn.Pos(), "loads of buf[offs] / buf[offs+1] not found")
+		return
+	}
+	only := func(bs *ByteSet, vals ...int) bool {
+		if bs == nil || bs.count() != len(vals) {
+			return false
+		}
+		for _, v := range vals {
+			if !bs.has(v) {
+				return false
+			}
+		}
+		return true
+	}
+	for _, b := range fn.Blocks {
+		ret, ok := b.Instrs[len(b.Instrs)-1].(*ssa.Return)
+		if !ok {
+			continue
+		}
+		verdict, _ := constIntOf(ret.Results[2])
+		crl, _ := constIntOf(ret.Results[1])
+		s0, s1 := env.byteSetOf(ld0, b), env.byteSetOf(ld1, b)
+		adv := le.norm(ret.Results[0]).add(le.norm(fn.Params[1]), -1)
+		key := fmt.Sprintf("skipCRLF:return(+%d,%d,%d)", adv.C, crl, verdict)
+		switch {
+		case verdict == 0 && crl == 2:
+			c.check(adv.isConst() && adv.C == 2 && only(s0, '\r') && only(s1, '\n'), "T4", key, ret.Pos(), "CR LF: advance 2 iff buf[i]==CR and buf[i+1]==LF (got "+s0.String()+","+s1.String()+")")
+		case verdict == 0 && crl == 1:
+			okCR := only(s0, '\r') && !s1.has('\n')
+			okLF := only(s0, '\n')
+			c.check(adv.isConst() && adv.C == 1 && (okCR || okLF), "T4", key, ret.Pos(), "lone CR (next byte not LF) or lone LF: advance 1 (got "+s0.String()+","+s1.String()+")")
+		case verdict == 0:
+			c.fail("T4", key, ret.Pos(), "success return with unexpected line-end length")
+		default:
+			c.check(adv.isConst() && adv.C == 0 && crl == 0, "T4", key, ret.Pos(), "non-success returns do not advance")
+			if nocr, _ := c.namedConstInt("ErrHdrNoCR"); verdict == nocr {
+				c.check(!s0.has('\r') && !s0.has('\n'), "T4", key+":bytes", ret.Pos(), "NoCR only for a byte that is neither CR nor LF (got "+s0.String()+")")
+			}
+		}
+	}
+	c.expectMin("T4", 6)
+}
+
+func init() {
+	register(&PropDef{
+		ID: "C07",
+		Rules: []Rule{
+			{"T1", "classification is assigned on both colon paths: every entry into the body-start state stores h.Type = GetHdrType(h.Name.Get(buf)) before the value parser is chosen, and h.Type is stored nowhere else", ruleT1},
+			{"T2", "header-loop bookkeeping is unconditional: on verdict 0 of ParseHdrLine the type flag is set, the header is offered to the first-of-type table and N is incremented as top-level statements; the only conditional is the scratch-slot reset", ruleT2},
+			{"T3", "the flag word has a bit for every header type, HdrOther is the largest type, the first-of-type table has HdrOther-1 slots indexed Type-1 and keeps the first header of a type", ruleT3},
+			{"T4", "exact decision table of skipCRLF from byte sets at each return: CR LF advances 2, lone CR (next byte not LF) or lone LF advances 1, anything else does not advance", ruleT4},
+		},
+		Assumptions: []string{"classification table itself is C16"},
+		NotDecided:  "that names and values have the stated extents, folding, empty values, ordering of stored headers (field values)",
+	})
 }
